@@ -667,3 +667,23 @@ package ast
 //@ func (byteArrayWrapper).toBytes
 //@   pure
 //@ typeinv TreeSet: self.tree != nil && treeLen[self.tree] >= 0 && (self.forward ==> !treeKinds[self.tree][typeid(reverseByteArrayComparable)]) && (!self.forward ==> !treeKinds[self.tree][typeid(byteArrayComparable)] && (treeLen[self.tree] > 0 ==> treeKinds[self.tree][typeid(reverseByteArrayComparable)]))
+
+// sort fields as seen through the SortField interface: direction (a view of the node's field) and symbol name
+//@ ghost sfAsc : (Array Int Bool)
+//@ ghost sfSym : (Array Int Str)
+//@ view sfAsc[*SortFieldNode] = self.isAscending
+//@ func (SortField).IsAscending
+//@   props C02
+//@   impl all
+//@   pure
+//@   ensures[direction] result == sfAsc[self]
+//@ func (SortField).Symbol
+//@   pure
+//@   ensures result == sfSym[self]
+//@ func NewSortFieldNode
+//@   props C02
+//@   pure
+//@   ensures[as-given] result != nil && sfAsc[result] == isAscending
+//@   censures[symbol-as-given] sfSym[result] == symbol
+//@ func NodeTypeName
+//@   pure
